@@ -717,6 +717,20 @@ func (c *caseCtx) check(p *pass) {
 			c.fail("C02", "gas-charge-bounds", fmt.Sprintf("%s status=%d", label, p.receipt.Status), fmt.Sprintf("payer charged %v, gasUsed*price = %v, gasLimit*price = %v", charge, minCharge, maxCharge))
 		}
 	}
+	// the next transaction of the same block: an account this transaction destroyed (whatever it was credited after its
+	// self-destruct is burnt with it) is created afresh by a later transfer or creation landing on its address - empty.
+	// (last use of this pass's state object: it is mutated here)
+	for _, a := range w.known {
+		in := mustInternal(a)
+		if !c.pre.Exist(in) || p.st.Exist(in) {
+			continue
+		}
+		p.st.CreateAccount(in)
+		simkit.Global.Inc("probe.destroyed_account_recreated")
+		if b := p.st.GetBalance(in); b.Sign() != 0 {
+			c.fail("C02", "value-created", "recreated-account-inherits-balance "+label, fmt.Sprintf("account %x was destroyed by this transaction; created again by the next one it starts with a balance of %v", a.Bytes(), b))
+		}
+	}
 }
 
 // ---------------------------------------------------------------- the property function
